@@ -105,6 +105,16 @@ func c16Exec(x *Ctx) {
 	defer u.Cleanup()
 	r := NewRand(c.Seed ^ 0x7EE)
 	tree := genTree(r, int(c.cfg("entries")), int(c.cfg("depth")), true)
+	// one deliberately deep chain (20..40 levels, short names): the client's FWalk has to split it into several Twalks
+	{
+		rel := "chain"
+		tree = append(tree, tEntry{Rel: rel, Kind: 'd'})
+		for d := r.Range(20, 40); d > 0; d-- {
+			rel += fmt.Sprintf("/l%d", d)
+			tree = append(tree, tEntry{Rel: rel, Kind: 'd'})
+		}
+		tree = append(tree, tEntry{Rel: rel + "/leaf", Kind: 'f', Size: 33})
+	}
 	if err := makeTree(u.Root, tree); err != nil {
 		x.Trouble("tree: %v", err)
 		return
